@@ -472,6 +472,9 @@ func execBuild(t []string) string {
 	if len(t) >= 1 && t[0] == "copydata" {
 		return execCopyData(t)
 	}
+	if len(t) == 3 && t[0] == "alloc" {
+		return execAlloc(t[1], t[2])
+	}
 	if len(t) < 5 {
 		return "bad-op"
 	}
@@ -860,6 +863,37 @@ func structCapsAgree(a, b capnp.Struct, depth int) string {
 		}
 	}
 	return ""
+}
+
+// execAlloc: "build alloc <single-segment arena> <n1+n2+…>": a run of allocations (byte lists of the given lengths, object
+// k filled with the byte k) in a fresh message; output: the bytes of the segment afterwards (Model.Alloc.allocFill after
+// the root pointer's word).
+func execAlloc(spec, sizes string) string {
+	msg, seg, err := capnp.NewMessage(makeArena(spec))
+	if err != nil {
+		return "builderr"
+	}
+	for k, f := range strings.Split(sizes, "+") {
+		n, err := strconv.Atoi(f)
+		if err != nil || n < 0 || n > 1<<16 {
+			return "bad-op"
+		}
+		v := make([]byte, n)
+		for i := range v {
+			v[i] = byte(k + 1)
+		}
+		l, err := capnp.NewData(seg, v)
+		if err != nil {
+			return "allocerr"
+		}
+		if l.Segment() != seg {
+			return "!single-segment-arena-used-another-segment"
+		}
+	}
+	if msg.NumSegments() != 1 {
+		return "!segments-" + strconv.FormatInt(msg.NumSegments(), 10)
+	}
+	return lib.Hex(seg.Data())
 }
 
 // execCopyData: "build copydata <src hex|-> <dw> <n> <idx> <old hex>": `copyStruct`'s data path on real memory.
@@ -1311,6 +1345,15 @@ func genBuild(rec *lib.Rec, r *lib.Rng, thorough bool, which string) {
 				// and the bytes must be a valid message (every pointer resolves, objects disjoint, padding zero)
 				rec.Op("S", "build spec "+shadowTree(v)+" "+segs, true)
 				rec.Op("S", "build valid "+segs, true)
+			}
+			if i%3 == 0 {
+				// allocation against Model.Alloc: object sizes of every residue mod 8, clean and recycled single-segment buffers
+				var szs []string
+				for k := 0; k < 1+r.Intn(6); k++ {
+					szs = append(szs, strconv.Itoa(r.Pick(0, 1, 7, 8, 9, r.Intn(40), r.Intn(40), r.Intn(300))))
+				}
+				rec.Op("M", "build alloc "+r.PickS("single", "single:8", "single:64", "single:4096", "dsingle:64", "dsingle:4096", "single:44", "single:61", "single:9", "dsingle:50")+" "+strings.Join(szs, "+"), true)
+				rec.Count("alloc")
 			}
 			if i%4 == 0 {
 				// … also after the message was decoded again and more objects were allocated in each of its segments
